@@ -51,7 +51,7 @@ def scripts(quick, tmp):
         pers = len(kind) == 2
         for beh in behaviours(kind, quick):
             alpha = alphabet(kind, beh, quick)
-            d = depth + (1 if (not quick and (kind in ('T', 'PT') or beh in ('finished', 'not-run'))) else 0)
+            d = depth + (1 if (not quick and kind in ('T', 'PT')) else 0)      # thread kinds are cheap: one level deeper
             for L in range(1, d + 1):
                 for hist in itertools.product(alpha, repeat=L):
                     n += 1
